@@ -1,4 +1,5 @@
 import PMH.Model.JaccardBounds
+import PMH.Proofs.GenEq
 import PMH.Proofs.RealAnalysis
 import PMH.Proofs.SskLaw
 /-!
@@ -49,6 +50,31 @@ theorem bounds_contain_J (b u v J : ℝ) (hb : 1 < b) (hu : 0 ≤ u) (hv : 0 ≤
     ∃ lo hi, jaccardBoundsG realBOps b (collisionP b u v J) = .ok (lo, hi) ∧ lo ≤ J ∧ J ≤ hi := by
   obtain ⟨c1, c2⟩ := RA.bounds_contain b u v J hb hu hv huv hJ h1 h2
   refine ⟨_, _, model_eq b _ hP, le_trans (min_le_left _ _) c1, c2⟩
+
+
+/-! ### the same three clauses for the definition GENERATED from `src/setsketcher.rs` on every check
+(`Model/JaccardBoundsGen.lean`, `tools/translate_float.py`); `GenEq.jaccardBounds_eq` is re-proved on every run -/
+
+/-- the generated definition computes the same function as the transcription the theorems above are about -/
+theorem source_eq_model (b jac : ℝ) : Gen.jaccardBounds realBOps b jac = jaccardBoundsG realBOps b jac :=
+  GenEq.jaccardBounds_eq b jac
+
+/-- **C07 (a), source** total on every collision fraction `≤ 1` -/
+theorem source_bounds_total (b jac : ℝ) (hj : jac ≤ 1) : ∃ r, Gen.jaccardBounds realBOps b jac = .ok r := by
+  rw [source_eq_model]; exact bounds_total b jac hj
+
+/-- **C07 (b), source** `0 ≤ J_low ≤ J_up ≤ 1` -/
+theorem source_bounds_ordered (b jac : ℝ) (hb : 1 < b) (h0 : 0 ≤ jac) (h1 : jac ≤ 1) :
+    ∃ lo hi, Gen.jaccardBounds realBOps b jac = .ok (lo, hi) ∧ 0 ≤ lo ∧ lo ≤ hi ∧ hi ≤ 1 := by
+  obtain ⟨lo, hi, h, _, _, a, c, d⟩ := bounds_ordered b jac hb h0 h1
+  exact ⟨lo, hi, by rw [source_eq_model]; exact h, a, c, d⟩
+
+/-- **C07 (c), source** the interval returned for the model collision probability contains `J` -/
+theorem source_bounds_contain_J (b u v J : ℝ) (hb : 1 < b) (hu : 0 ≤ u) (hv : 0 ≤ v) (huv : u + v = 1)
+    (hJ : 0 ≤ J) (h1 : v * J ≤ u) (h2 : u * J ≤ v) (hP : collisionP b u v J ≤ 1) (hP0 : 0 ≤ collisionP b u v J) :
+    ∃ lo hi, Gen.jaccardBounds realBOps b (collisionP b u v J) = .ok (lo, hi) ∧ lo ≤ J ∧ J ≤ hi := by
+  obtain ⟨lo, hi, h, a, c⟩ := bounds_contain_J b u v J hb hu hv huv hJ h1 h2 hP hP0
+  exact ⟨lo, hi, by rw [source_eq_model]; exact h, a, c⟩
 
 
 /-! ### first sentence: the collision probability of SetSketch registers -/
